@@ -191,6 +191,13 @@ class Executor:
             raise OutOfSubset('contract placeholder {%s} not bound on this path (%s)' % (key, self.qualname))
         return _PH.sub(sub, tmpl)
 
+    def loop_comps(self, body):
+        if self.theory:
+            m = self.theory.loop_modified_comps(self, body)
+            if m is not None:
+                return [n for n, _ in self.comps if n in m]
+        return None
+
     def havoc_comp(self, st, names=None):
         for n, sort in self.comps:
             if names is None or n in names:
@@ -716,31 +723,54 @@ class Executor:
         n, spec = self.loop_spec(s)
         if spec is None:
             raise OutOfSubset('loop %d of %s has no invariant in the sidecar contract' % (n, self.qualname), s)
-        if len(s.iter.args) != 1 or not isinstance(s.target, ast.Name):
-            raise OutOfSubset('range() with start/step', s)
-        for st1, bound in self.eval(s.iter.args[0], st):
-            if isinstance(bound, Exc):
-                k.exc(st1, bound)
+        a = s.iter.args
+        if not isinstance(s.target, ast.Name) or len(a) not in (1, 3):
+            raise OutOfSubset('range() form', s)
+        step = 1
+        if len(a) == 3:
+            if isinstance(a[2], ast.UnaryOp) and isinstance(a[2].op, ast.USub) and isinstance(a[2].operand, ast.Constant) and a[2].operand.value == 1:
+                step = -1
+            elif isinstance(a[2], ast.Constant) and a[2].value == 1:
+                step = 1
+            else:
+                raise OutOfSubset('range() step', s)
+        for st1, args in self.eval_args(a[:2] if len(a) == 3 else a, st):
+            if isinstance(args, Exc):
+                k.exc(st1, args)
                 continue
-            self._for_range(s, n, spec, bound, st1, k)
+            if len(a) == 1:
+                start, count = '0', args[0].e
+            else:
+                start = args[0].e
+                count = '(- %s %s)' % (args[1].e, start) if step == 1 else '(- %s %s)' % (start, args[1].e)
+            self._for_range(s, n, spec, SV('Int', count), st1, k, start, step)
 
-    def _for_range(self, s, n, spec, bound, st, k):
+    def _for_range(self, s, n, spec, bound, st, k, start='0', step=1):
+        """`{k}` in invariants = number of completed iterations, `{n}` = total number of iterations (if >= 0)"""
         var = s.target.id
         mods = self.assigned_names(s.body) | {var}
+        comps = self.loop_comps(s.body)
         st.ghost['loop%d_pre_store' % n] = st.comp.get('store', '')
+        for cn, _ in self.comps:
+            st.ghost['loop%d_pre_%s' % (n, cn)] = st.comp[cn]
+
+        def ival(kx):
+            if start == '0' and step == 1:
+                return kx
+            return '(%s %s %s)' % ('+' if step == 1 else '-', start, kx)
         ex0 = {'k': '0', 'n': bound.e}
         for j, inv in enumerate(spec.inv):
             self.oblige(st.fork().tag('loop%d.init' % n), 'loop%d.inv%d' % (n, j), self.fmt(inv, st, ex0), 'inv')
         # arbitrary iteration
         sti = st.fork().tag('loop%d.iter' % n)
-        self.havoc_comp(sti)
+        self.havoc_comp(sti, comps)
         self.havoc_locals(sti, mods)
         kk = self.fresh('Int', 'k')
         ex = {'k': kk, 'n': bound.e}
         sti.assume('(<= 0 %s)' % kk).assume('(< %s %s)' % (kk, bound.e))
         for inv in spec.inv:
             sti.assume(self.fmt(inv, sti, ex))
-        sti.env[var] = SV('Int', kk)
+        sti.env[var] = SV('Int', ival(kk))
         sti.ghost['k%d' % n] = kk
 
         def preserve(st2):
@@ -752,16 +782,14 @@ class Executor:
         self.exec_block(s.body, sti, kbody)
         # exit
         ste = st.fork().tag('loop%d.exit' % n)
-        self.havoc_comp(ste)
+        self.havoc_comp(ste, comps)
         self.havoc_locals(ste, mods)
         ke = self.fresh('Int', 'k')
         exe = {'k': ke, 'n': bound.e}
         ste.assume('(<= 0 %s)' % ke).assume(OR(EQ(ke, bound.e), AND('(< %s 0)' % bound.e, EQ(ke, '0'))))
         for inv in spec.inv:
             ste.assume(self.fmt(inv, ste, exe))
-        if var in st.env:
-            pass
-        ste.env[var] = SV('Int', '(- %s 1)' % ke)
+        ste.env[var] = SV('Int', ival('(- %s 1)' % ke))
         ste.ghost['k%d' % n] = ke
         k.normal(ste)
 
